@@ -5,21 +5,25 @@
 //! clause:  "two elements have the same representative exactly when they are connected by the unions
 //!          applied to that instance; a representative is a member of its class and stays the same until a
 //!          union involving that class; a clone evolves independently of its original in both directions".
-//! method:  ONE INDUCTIVE STEP from an ARBITRARY reachable state instead of enumerating histories: the
+//! method:  ONE INDUCTIVE STEP from an ARBITRARY reachable state instead of enumerating histories. The
 //!          pre-state is a symbolic (parent, rank) pair of N elements constrained only by the
 //!          representation invariant INV := for every i: parent[i] < N and (parent[i] == i or
-//!          rank[i] < rank[parent[i]]) (union by rank; implies the parent graph is a forest). The harnesses
-//!          prove (a) `new()` satisfies INV, (b) find/unite (including lazy growth by one element) preserve
-//!          INV, (c) the partition induced by "same root" changes exactly as specified: not at all for
-//!          find, merging exactly the classes of the two arguments for unite, (d) roots of untouched
-//!          classes do not move, the root of a merged class is one of the two old roots, find returns the
-//!          root. By induction this covers every history of unite/find/clone over at most N (+1 grown)
-//!          elements, of any length.
+//!          rank[i] < rank[parent[i]]) (union by rank; it implies that the parent graph is a forest and that
+//!          a root of rank 0 has no children). The harnesses prove (a) `new()` satisfies INV, (b) after
+//!          find/unite/clone the parent graph is still a FOREST (every element reaches a self-parent within N
+//!          steps: otherwise find would not terminate) and (c) the partition induced by "same root" changes
+//!          exactly as specified: not at all for find and clone, merging exactly the classes of the two
+//!          arguments for unite; roots of untouched classes do not move, the root of a merged class is one
+//!          of the two old roots, find returns the root. Violations of (b)/(c) are VIOLATIONS of C20.
+//!          Preservation of the rank clause of INV is asserted under labels `C20.INV.*`: if that fails while
+//!          (b)/(c) hold, the code may still be correct with a different invariant, so the driver reports the
+//!          run as INCONCLUSIVE (the induction does not close), never as a violation. By induction the
+//!          claims cover every history of unite/find/clone over at most N (+1 grown) elements, of any length.
 //! bound:   N = 3 (quick), N = 4 (thorough) materialised elements; arguments range over 0..=N (N itself
-//!          triggers growth by one element). rank values 0..=N.
-//! assumes: INV is only claimed to over-approximate the reachable states (a counterexample from an
-//!          unreachable state would be a false alarm to be fixed by strengthening INV, never a finding).
-//! oracle:  root(i) = follow `parent` N times in a fixed-trip loop over a harness-side array copy.
+//!          triggers growth by one element). rank values 0..=N in the pre-state.
+//! assumes: INV over-approximates the reachable states (a counterexample from an unreachable state would
+//!          be a false alarm to be fixed by strengthening INV, never a finding).
+//! oracle:  root(i) = follow `parent` M times in a fixed-trip loop over a harness-side array copy.
 //! not decided: the generic Partition<T> (index is a HashMap<T, usize>: not reachable, DESIGN.md §2) and
 //!          `classes()` of either type (builds a HashMap).
 //! stubs:   none.
@@ -51,11 +55,31 @@ fn inv<const M: usize>(s: &St<M>) -> bool {
     ok
 }
 
+/// every element reaches a self-parent within M steps (no cycles except self-loops)
+fn forest<const M: usize>(s: &St<M>) -> bool {
+    let mut ok = true;
+    let mut i = 0;
+    while i < M {
+        if i < s.n {
+            if s.parent[i] >= s.n {
+                ok = false;
+            } else {
+                let r = root(s, i);
+                if r >= s.n || s.parent[r] != r {
+                    ok = false;
+                }
+            }
+        }
+        i += 1;
+    }
+    ok
+}
+
 fn root<const M: usize>(s: &St<M>, x: usize) -> usize {
     let mut r = x;
     let mut k = 0;
     while k < M {
-        if r < s.n {
+        if r < s.n && r < M {
             r = s.parent[r];
         }
         k += 1;
@@ -130,7 +154,8 @@ fn find_body<const N: usize, const M: usize>(reach: bool) {
     let pre = grown(&pre0, a);
     let post = read::<M>(&p);
     assert!(post.n == pre.n, "C20.find.growth_exact");
-    assert!(inv(&post), "C20.find.preserves_invariant");
+    assert!(forest(&post), "C20.find.stays_a_forest");
+    assert!(inv(&post), "C20.INV.find_preserves_rank_invariant");
     assert!(got == root(&pre, a), "C20.find.returns_root");
     assert!(post.parent[got] == got, "C20.find.result_is_root");
     // no representative moves, for any element (symbolic x)
@@ -155,7 +180,8 @@ fn unite_body<const N: usize, const M: usize>(reach: bool) {
     let pre = grown(&pre0, if a > b { a } else { b });
     let post = read::<M>(&p);
     assert!(post.n == pre.n, "C20.unite.growth_exact");
-    assert!(inv(&post), "C20.unite.preserves_invariant");
+    assert!(forest(&post), "C20.unite.stays_a_forest");
+    assert!(inv(&post), "C20.INV.unite_preserves_rank_invariant");
     let (ra, rb) = (root(&pre, a), root(&pre, b));
     let x: usize = vin();
     let y: usize = vin();
@@ -176,37 +202,38 @@ fn unite_body<const N: usize, const M: usize>(reach: bool) {
     std::mem::forget(p);
 }
 
-/// the public wrapper: `new`, `find(&self)`, `unite`, `clone` — base case of the induction and
-/// independence of clones in both directions, from an arbitrary reachable state
-fn clone_body<const N: usize, const M: usize>(reach: bool) {
+/// the public wrapper: `find(&self)`, `unite`, `clone` — a clone represents the same partition and the
+/// two evolve independently in both directions, from an arbitrary reachable state
+fn clone_body<const N: usize, const M: usize, const ON_COPY: bool>(reach: bool) {
     let pre = sym_state::<N, M>();
     let mut orig = IntPartition { _impl: UnsafeCell::new(build::<N, M>(&pre)) };
     let mut copy = orig.clone();
     let c0 = read::<M>(unsafe { &*copy._impl.get() });
     assert!(c0.n == pre.n, "C20.clone.same_size");
+    assert!(forest(&c0), "C20.clone.is_a_forest");
+    assert!(inv(&c0), "C20.INV.clone_satisfies_rank_invariant");
     let x: usize = vin();
     let y: usize = vin();
     assume(x < N && y < N);
-    assert!(c0.parent[x] == pre.parent[x] && c0.rank[x] == pre.rank[x], "C20.clone.same_state");
+    let same_pre = root(&pre, x) == root(&pre, y);
+    assert!((root(&c0, x) == root(&c0, y)) == same_pre, "C20.clone.same_partition");
     let a: usize = vin();
     let b: usize = vin();
     assume(a < N && b < N);
-    let on_copy: bool = vin();
-    if on_copy {
+    if ON_COPY {
         copy.unite(a, b);
     } else {
         orig.unite(a, b);
     }
     let o1 = read::<M>(unsafe { &*orig._impl.get() });
     let c1 = read::<M>(unsafe { &*copy._impl.get() });
-    let untouched = if on_copy { &o1 } else { &c1 };
-    let touched = if on_copy { &c1 } else { &o1 };
-    assert!((root(untouched, x) == root(untouched, y)) == (root(&pre, x) == root(&pre, y)),
-            "C20.clone.independent");
-    assert!(untouched.parent[x] == pre.parent[x], "C20.clone.no_shared_storage");
+    let untouched = if ON_COPY { &o1 } else { &c1 };
+    let touched = if ON_COPY { &c1 } else { &o1 };
+    assert!(forest(untouched) && forest(touched), "C20.clone.both_stay_forests");
+    assert!((root(untouched, x) == root(untouched, y)) == same_pre, "C20.clone.independent");
     let joined = (root(&pre, x) == root(&pre, a) && root(&pre, y) == root(&pre, b))
         || (root(&pre, x) == root(&pre, b) && root(&pre, y) == root(&pre, a));
-    assert!((root(touched, x) == root(touched, y)) == ((root(&pre, x) == root(&pre, y)) || joined),
+    assert!((root(touched, x) == root(touched, y)) == (same_pre || joined),
             "C20.clone.own_unions_apply");
     // find through &self on the public wrapper agrees with the oracle
     assert!(orig.find(x) == root(&o1, x), "C20.wrapper.find");
@@ -216,20 +243,15 @@ fn clone_body<const N: usize, const M: usize>(reach: bool) {
 
 fn new_body(reach: bool) {
     let mut p = IntPartition::new();
-    let s0 = read::<3>(unsafe { &*p._impl.get() });
+    let s0 = read::<2>(unsafe { &*p._impl.get() });
     assert!(s0.n == 0 && inv(&s0), "C20.new.empty_satisfies_invariant");
     let a: usize = vin();
-    let b: usize = vin();
-    assume(a < 3 && b < 3);
+    assume(a < 2);
     // fresh elements are singletons represented by themselves
     assert!(p.find(a) == a, "C20.new.singleton");
-    p.unite(a, b);
-    let s1 = read::<3>(unsafe { &*p._impl.get() });
-    assert!(inv(&s1), "C20.new.unite_invariant");
-    assert!(p.find(a) == p.find(b), "C20.new.unite_joins");
-    let c: usize = vin();
-    assume(c < 3 && c != a && c != b);
-    assert!(p.find(c) == c, "C20.new.others_untouched");
+    let s1 = read::<2>(unsafe { &*p._impl.get() });
+    assert!(s1.n == a + 1 && forest(&s1), "C20.new.growth");
+    assert!(inv(&s1), "C20.INV.growth_satisfies_rank_invariant");
     reach_end(reach);
     std::mem::forget(p);
 }
@@ -242,27 +264,31 @@ macro_rules! proofs {
     )*};
 }
 
-// @harness c20_find_n3 tier=quick unwind=6 block=128 mem=22 timeout=900
-// @harness c20_find_n3_reach tier=quick unwind=6 block=128 mem=22 timeout=900 twin
-// @harness c20_unite_n3 tier=quick unwind=6 block=128 mem=24 timeout=900
-// @harness c20_unite_n3_reach tier=quick unwind=6 block=128 mem=16 timeout=900 twin
-// @harness c20_clone_n3 tier=quick unwind=6 block=128 mem=24 timeout=900
-// @harness c20_clone_n3_reach tier=quick unwind=6 block=128 mem=16 timeout=900 twin
-// @harness c20_new tier=quick unwind=6 block=128 mem=26 timeout=900
-// @harness c20_new_reach tier=quick unwind=6 block=128 mem=20 timeout=900 twin
-// @harness c20_find_n4 tier=thorough unwind=7 block=128 mem=40 timeout=3000
-// @harness c20_unite_n4 tier=thorough unwind=7 block=128 mem=44 timeout=3600 stretch
-// @harness c20_clone_n4 tier=thorough unwind=7 block=128 mem=44 timeout=3600 stretch
+// @harness c20_find_n3 tier=quick unwind=6 block=128 mem=22 timeout=1800
+// @harness c20_find_n3_reach tier=quick unwind=6 block=128 mem=16 timeout=1800 twin
+// @harness c20_unite_n3 tier=quick unwind=6 block=128 mem=26 timeout=1800
+// @harness c20_unite_n3_reach tier=quick unwind=6 block=128 mem=16 timeout=1800 twin
+// @harness c20_clone_copy_n2 tier=quick unwind=5 block=128 mem=24 timeout=1800
+// @harness c20_clone_orig_n2 tier=quick unwind=5 block=128 mem=24 timeout=1800
+// @harness c20_clone_orig_n2_reach tier=quick unwind=5 block=128 mem=16 timeout=1800 twin
+// @harness c20_new tier=quick unwind=5 block=128 mem=16 timeout=1800
+// @harness c20_new_reach tier=quick unwind=5 block=128 mem=12 timeout=1800 twin
+// @harness c20_clone_copy_n3 tier=thorough unwind=6 block=128 mem=44 timeout=3600
+// @harness c20_clone_orig_n3 tier=thorough unwind=6 block=128 mem=44 timeout=3600
+// @harness c20_find_n4 tier=thorough unwind=7 block=128 mem=44 timeout=3600 stretch
+// @harness c20_unite_n4 tier=thorough unwind=7 block=128 mem=48 timeout=3600 stretch
 proofs! {
     c20_find_n3 => find_body::<3, 4>(false);
     c20_find_n3_reach => find_body::<3, 4>(true);
     c20_unite_n3 => unite_body::<3, 4>(false);
     c20_unite_n3_reach => unite_body::<3, 4>(true);
-    c20_clone_n3 => clone_body::<3, 4>(false);
-    c20_clone_n3_reach => clone_body::<3, 4>(true);
+    c20_clone_copy_n2 => clone_body::<2, 3, true>(false);
+    c20_clone_orig_n2 => clone_body::<2, 3, false>(false);
+    c20_clone_orig_n2_reach => clone_body::<2, 3, false>(true);
     c20_new => new_body(false);
     c20_new_reach => new_body(true);
+    c20_clone_copy_n3 => clone_body::<3, 4, true>(false);
+    c20_clone_orig_n3 => clone_body::<3, 4, false>(false);
     c20_find_n4 => find_body::<4, 5>(false);
     c20_unite_n4 => unite_body::<4, 5>(false);
-    c20_clone_n4 => clone_body::<4, 5>(false);
 }
